@@ -81,6 +81,25 @@ func (g *Gen) resolveType(s, file string, pkg *types.Package) *SType {
 	switch {
 	case s == "":
 		efail("empty type")
+	case strings.HasPrefix(s, "gomap["):
+		// gomap[K]V: a Go map value (reference to a map cell), as opposed to map[K]V, the ghost total map
+		depth, j := 0, 5
+		for ; j < len(s); j++ {
+			if s[j] == '[' {
+				depth++
+			}
+			if s[j] == ']' {
+				depth--
+				if depth == 0 {
+					break
+				}
+			}
+		}
+		k, v := g.resolveType(s[6:j], file, pkg), g.resolveType(s[j+1:], file, pkg)
+		if k.Go == nil || v.Go == nil {
+			efail("gomap of ghost types")
+		}
+		return goT(types.NewMap(k.Go, v.Go))
 	case strings.HasPrefix(s, "map["):
 		depth, j := 0, 3
 		for ; j < len(s); j++ {
@@ -285,6 +304,9 @@ func (e *Env) ev(x Expr) SV {
 		s := e.sort(ty)
 		si := g.reg.structs[s]
 		if si == nil {
+			if len(n.Fields) == 0 && ty.Go != nil {
+				return SV{g.zero(ty.Go), ty} // T{} of an opaque struct: its zero value
+			}
 			efail("composite literal of non-struct %s", n.Type)
 		}
 		args := make([]string, len(si.Fields))
